@@ -316,8 +316,19 @@ class AST2SCFGTransformer:
         recursive function is commonly called 'codegen'.
 
         """
-        for node in tree:
+        for i, node in enumerate(tree):
             self.handle_ast_node(node)
+            if (
+                isinstance(node, (ast.Return, ast.Break, ast.Continue))
+                and i + 1 < len(tree)
+            ):
+                # Any statements following a return, break or continue in
+                # the same suite are unreachable. Seal the current block
+                # according to its last instruction and emit the remaining
+                # statements into a fresh block without predecessors.
+                self.seal_block(self.block_index)
+                self.add_block(self.block_index)
+                self.block_index += 1
 
     def handle_ast_node(self, node: type[ast.AST] | ast.stmt) -> None:
         """Dispatch an AST node to handle."""
